@@ -720,12 +720,13 @@ Theorem cleanup_completes_refuted :
     In EViolOutstanding (snd c) /\ In ESrcClCompleteBad (snd c).
 Proof.
   exists sched_finding2b. cbv zeta.
-  set (c := run step sched_finding2b (init p_finding2, [])).
-  assert (Hen : forallb (fun t => negb (enabled t (fst c))) (seq 0 nthreads) = true) by (vm_compute; reflexivity).
-  repeat split; try (vm_compute; reflexivity).
+  assert (Hen : forallb (fun t => negb (enabled t (fst (run step sched_finding2b (init p_finding2, [])))))
+                        (seq 0 nthreads) = true) by (vm_compute; reflexivity).
+  split; [vm_compute; reflexivity|]. split; [vm_compute; reflexivity|]. split; [|split].
   - intros t. destruct (le_lt_dec nthreads t) as [Hge|Hlt]; [apply step_bound; exact Hge|].
     rewrite forallb_forall in Hen. assert (Hin : In t (seq 0 nthreads)) by (apply in_seq; lia).
-    specialize (Hen t Hin). unfold enabled in Hen. destruct (step t (fst c)); [discriminate|reflexivity].
+    specialize (Hen t Hin). unfold enabled in Hen.
+    destruct (step t (fst (run step sched_finding2b (init p_finding2, [])))); [discriminate|reflexivity].
   - vm_compute. auto 60.
   - vm_compute. auto 60.
 Qed.
